@@ -14,7 +14,8 @@ import (
 // of the 1e-8 snap grid), so that an edge lies within one or two tolerance squares and its end points sit on or next to the
 // ties of the rounding (odd multiples of 5e-9) at negative as well as positive coordinates. The general generator keeps
 // its operands in the positive quadrant, where all ways of rounding a tie agree (seed C01-6: two snapping sites that round
-// negative ties differently). Same oracle and finding classes as the bool sub-check.
+// negative ties differently). Same oracle and finding classes as the bool sub-check; failures of inputs with an edge shorter than two grid cells
+// fall into the class of finding F01f, whose rate is guarded.
 
 func genHalfGridOperand(t *rapid.T) gen.PathSpec {
 	var ps gen.PathSpec
@@ -59,5 +60,9 @@ func genHalfGrid(t *rapid.T) Case {
 }
 
 func TestHalfGrid(t *testing.T) {
-	vf.Run(t, vf.Prop[Case]{Sub: "halfgrid", Gen: genHalfGrid, Check: checkBool, Cases: vf.N(6000, 60000)})
+	vf.Run(t, vf.Prop[Case]{Sub: "halfgrid", Gen: genHalfGrid, Check: checkBool, Cases: vf.N(6000, 60000),
+		// rates on the unchanged tree (4 seeds x 24000 cases): F01c 2.8 %, F01d 0.03 %, F01e 0.27 %, F01f 0.04 %
+		// (with seed C01-6 applied F01f rises to 1.6 %, next to panics outside every class)
+		MaxRate: map[string]float64{"F01c": 0.06, "F01d": 0.002, "F01e": 0.008, "F01f": 0.002},
+		BaseRate: map[string]float64{"F01c": 0.0278, "F01d": 0.00027, "F01e": 0.0027, "F01f": 0.00036}})
 }
